@@ -141,14 +141,6 @@ def pushSuffix (w : Ws) (nl : Bytes) (body : List Event) (key : Bytes) (value : 
 def pushBody (w : Ws) (nl : Bytes) (body : List Event) (key : Bytes) (value : Option Bytes) : List Event :=
   body ++ pushSuffix w nl body key value
 
-def evIsNewline : Event → Bool
-  | .newline _ => true
-  | _ => false
-
-def evIsWs : Event → Bool
-  | .ws _ => true
-  | _ => false
-
 /-- `SectionMut::remove_internal` -/
 def removeInternal (body : List Event) (s t : Nat) (fixWs : Bool) : List Event :=
   let b1 := if fixWs && body[t]?.any evIsNewline then body.eraseIdx t else body
